@@ -2,6 +2,8 @@ package storage
 
 import (
 	"context"
+	"io/ioutil"
+	"os"
 	"sync"
 	"testing"
 	"time"
@@ -9,6 +11,7 @@ import (
 	"github.com/marekgalovic/anndb/cluster"
 	pb "github.com/marekgalovic/anndb/protobuf"
 	"github.com/marekgalovic/anndb/storage/raft"
+	badger "github.com/dgraph-io/badger/v2"
 	uuid "github.com/satori/go.uuid"
 )
 
@@ -56,12 +59,19 @@ func TestVerifReplayC11OutcomeDelivered(t *testing.T) {
 	conn.AddNode(1, ":0")
 	alloc := NewAllocator(conn)
 	defer alloc.Stop()
-	dm, err := NewDatasetManager(&verifSyncGroup{}, nil, nil, conn, alloc)
+	dir, _ := ioutil.TempDir("", "verif-replay")
+	defer os.RemoveAll(dir)
+	db, err := badger.Open(badger.DefaultOptions(dir).WithLogger(nil))
+	if err != nil {
+		t.Fatal(err)
+	}
+	defer db.Close()
+	dm, err := NewDatasetManager(&verifSyncGroup{}, db, raft.NewTransport(1, ":0", conn), conn, alloc)
 	if err != nil {
 		t.Fatal(err)
 	}
 	start := time.Now()
-	ds, err := dm.Create(context.Background(), &pb.Dataset{Dimension: 2, PartitionCount: 0, ReplicationFactor: 1})
+	ds, err := dm.Create(context.Background(), &pb.Dataset{Dimension: 2, PartitionCount: 1, ReplicationFactor: 1})
 	if err != nil {
 		n, _ := dm.List(context.Background(), false)
 		t.Fatalf("Create failed after %v with %q although the entry was committed and applied (%d dataset(s) now exist): the outcome was dropped because the proposer was not yet receiving", time.Since(start), err, len(n))
